@@ -349,4 +349,9 @@ def r5(ctx: Ctx) -> None:
         for e in p.walk_events():
             if e.kind == "call" and "comp" in e.ctx and e.kwargs and e.kwargs[0][0] == "**":
                 found = True
+        for l in loops(p):
+            if key(strip_ver(l.iter)) == "self._pending_setups" and len(l.target) == 2:
+                fn, kwv = (("sym", f"{t}∈{l.loopid}") for t in l.target)
+                if all(len([c for c in calls(bp) if c.fterm == fn and c.kwargs and c.kwargs[0] == ("**", kwv)]) == 1 and not bp.conds for bp in l.paths):
+                    found = True
     ctx.check(found, st, st.node, "every pending setup is executed", "[func(**kwargs) for func, kwargs in self._pending_setups]", "present" if found else "not found")
